@@ -37,11 +37,12 @@ ExprsA == Base \cup Deeper
 (* comparisons *)
 V(n) == [k |-> "var", n |-> n]
 I(v) == [k |-> "int", v |-> v]
+BL(v) == [k |-> "blit", v |-> v]
 RelOps == {"==", "!=", "<", ">", "<=", ">=", "is", "is not"}
 MemOps == {"in", "not in"}
 Cmp(l, rest) == [t |-> "not", e |-> [t |-> "cmp", left |-> l, rest |-> rest]]
 ExprsB ==
-     {Cmp(V("x"), <<[op |-> o, right |-> r]>>) : o \in RelOps, r \in {V("y"), I(1)}}
+     {Cmp(V("x"), <<[op |-> o, right |-> r]>>) : o \in RelOps, r \in {V("y"), I(1), BL(BTrue), BL(BFalse)}}
   \cup {Cmp(V("x"), <<[op |-> o, right |-> [k |-> "tupv", n |-> "t"]]>>) : o \in MemOps}
   \cup {Cmp(V("x"), <<[op |-> o1, right |-> V("y")], [op |-> o2, right |-> V("z")]>>) : o1 \in RelOps, o2 \in RelOps}
   \cup {Cmp(V("x"), <<[op |-> o1, right |-> V("y")], [op |-> o2, right |-> [k |-> "tupv", n |-> "t"]]>>) : o1 \in RelOps, o2 \in MemOps}
